@@ -41,7 +41,7 @@ Section Keys.
     exists i, bf. split; [exact F|].
     unfold with_txout_secrets, asset_blind. rewrite ST. cbn [obind]. unfold sp_new. rewrite F. cbn [obind].
     unfold value_blind, value_blind_with_shared_secret. cbn [fst snd].
-    rewrite pedersen_new_ok by (pose proof qn_big; lia). cbn [obind].
+    rewrite min_guard by lia. rewrite pedersen_new_ok by (pose proof qn_big; lia). cbn [obind].
     rewrite rp_new_some by (unfold I64_MAX; lia). cbn [obind]. reflexivity.
   Qed.
   Lemma asset_blind_ok asset abf spent tg : surjection_targets spent 0 = OVal tg -> holds_tg tg asset ->
@@ -500,7 +500,7 @@ Section Flow.
     - intro ret. rewrite SI. cbn [obind]. rewrite NE, A. cbn [opt_err obind draw lift_blind map_err]. rewrite AB. cbn [map_err obind]. rewrite V, EO. cbn [opt_err obind].
       fold fv. rewrite K. cbn [opt_err obind draw map_err].
       unfold value_blind, value_blind_with_shared_secret. cbn [fst snd]. unfold I64_MAX in R.
-      rewrite pedersen_new_ok by (pose proof qn_big; lia). cbn [obind]. rewrite rp_new_some by (unfold I64_MAX; lia). cbn [obind map_err].
+      rewrite min_guard by lia. rewrite pedersen_new_ok by (pose proof qn_big; lia). cbn [obind]. rewrite rp_new_some by (unfold I64_MAX; lia). cbn [obind map_err].
       unfold blind_asset_proof, sp_new. cbn [find_tag]. rewrite N.eqb_refl. cbn [opt_err obind o_asset o_value blind_value_proof].
       unfold blinded_as. rewrite K. unfold blind_asset_proof, blind_value_proof, sp_new. cbn [find_tag s_asset s_abf s_value s_vbf]. rewrite N.eqb_refl.
       reflexivity.
